@@ -615,13 +615,13 @@ class PGPUID(ParentRef):
                            # comment *optionally* matches text in parens following name
                            # this should never come after email and must be followed immediately by
                            # either the email field, or the end of the packet.
-                           (\ \((?P<comment>.+?)\)(?=(\ <|$)))?
+                           (\ \((?P<comment>.+?)\)(?=(\ <|\Z)))?
                            # email *optionally* matches text in angle brackets following name or comment
                            # this should never come before a comment, if comment exists,
                            # but can immediately follow name if comment does not exist
                            (\ <(?P<email>.+)>)?
-                           $
-                           """, self._uid.uid, flags=re.VERBOSE).groupdict()
+                           \Z
+                           """, self._uid.uid, flags=re.VERBOSE | re.DOTALL).groupdict()   # a user id may contain line breaks
 
         return (rfc2822['name'], rfc2822['comment'] or "", rfc2822['email'] or "")
 
